@@ -1,8 +1,12 @@
 (* C09 -- a stale handle can never commit; it is refreshed and its retry succeeds.
    Statements only.  [c09_ok] looks at every Add that runs undisturbed: through
    a handle whose view differs from tables.list it returns ErrLockFailure,
-   leaves the directory as it was and refreshes the handle; through an
-   up-to-date handle with the write lock free it commits.
+   leaves the directory as it was and refreshes the handle (also an Add of an
+   empty or of a rejected table); through an up-to-date handle with the write
+   lock free it commits.  A compaction (all / a range / with expiry), a Clean
+   and a NewAddition that run undisturbed through a stale handle return
+   success resp. ErrLockFailure and leave the directory literally unchanged
+   (in both readings: these paths do not reload).
 
    Proved for every schedule:
    * [C09_stale_gc]: with "the directory is left unchanged" read as
@@ -10,8 +14,10 @@
      temp file left" (c09_ok_gc: a failed Add's reload may unlink table files
      that the list no longer names);
    * [C09_stale_strict]: literally unchanged (c09_ok), under the trace
-     precondition that, at the call, no table the handle holds is both unlisted
-     and still on disk (c09_precond) -- which holds at every quiescent instant.
+     precondition that, at the call of an Add (of a table, an empty or a
+     rejected one), no table the handle holds is both unlisted and still on disk
+     (c09_precond) -- which holds at every quiescent instant; it asks nothing
+     at the call of a compaction, a Clean or a NewAddition.
    Both statements are about handles configured with the directory's hash
    type ([native tabs scripts]: every handle has the hash type of the initial
    tables; with an empty directory, one common hash type).  A handle of the
